@@ -109,6 +109,9 @@ Next ==
 Spec == Init /\ [][Next]_vars
 
 View == <<ks, st, pan>>     \* hist/out are output-only
+\* edge cover: with the last step in the view every reachable (state, event) pair is a distinct state
+LastStep == [op |-> hist[Len(hist)].op, args |-> hist[Len(hist)].args, crashAt |-> hist[Len(hist)].crashAt]
+EdgeView == <<ks, st, pan, LastStep>>
 
 -----------------------------------------------------------------------------
 (* ---- property predicates (design level; the same predicates are evaluated *)
@@ -179,4 +182,6 @@ C10_RestartOK == [][(ks = DownKS /\ pan = "" /\ ks' # ks) => pan' = ""]_vars
 -----------------------------------------------------------------------------
 Terminal == Len(hist) = MaxSteps \/ (pan # "")
 Emit == (EmitAll /\ Terminal) => PrintT("BEH " \o ToJson(hist))
+\* state / edge cover export: one behaviour per distinct state of the chosen VIEW (exhaustive mode)
+EmitEvery == (EmitAll /\ Len(hist) > 1) => PrintT("BEH " \o ToJson(hist))
 =============================================================================
